@@ -245,11 +245,13 @@ class GridSearchOracle(oracle_module.Oracle):
             -1 if a < b, 0 if a == b, 1 if a > b.
         """
         hps = self.get_space()
+        hps.values = a
         for hp in hps.space:
             # The hp is not active in neither a or b.
             # Whether it is active should be the same in a and b,
             # or the loop have stopped at the parent values which are different.
-            if hp.name not in a:
+            # Another entry of the same name may be the active one.
+            if hp.name not in a or not hps.is_active(hp):
                 continue
 
             # A trial started before `hp` was declared ran with its default.
@@ -259,11 +261,7 @@ class GridSearchOracle(oracle_module.Oracle):
                 continue
 
             # Get a ordered list of the values of the hp.
-            value_list = list(hp.values)
-            if hp.default in value_list:
-                value_list.remove(hp.default)
-            value_list.insert(0, hp.default)
-
+            value_list = self._ordered_values(hp)
             index_a = value_list.index(value_a)
             index_b = value_list.index(value_b)
             return -1 if index_a < index_b else 1
@@ -294,37 +292,44 @@ class GridSearchOracle(oracle_module.Oracle):
             active ones.
         """
         hps = self.get_space()
-        all_values = {}
-        for hp in hps.space:
-            value_list = list(hp.values)
-            if hp.default in value_list:
-                value_list.remove(hp.default)
-            # Put the default value first.
-            all_values[hp.name] = [hp.default] + value_list
-        default_values = {hp.name: hp.default for hp in hps.space}
         hps.values = copy.deepcopy(values)
         # A trial started before some entry was declared ran with its default.
         hps.ensure_active_values()
 
-        bumped_value = False
-
+        space = hps.space
         # Iterate in reverse order so that we can change the value under
         # conditional scope first instead of change the condition value first.
-        for hp in reversed(hps.space):
-            name = hp.name
-            # Bump up the hp value if possible and active.
-            if hps.is_active(hp):
-                value = hps.values[name]
-                if value != all_values[name][-1]:
-                    index = all_values[name].index(value) + 1
-                    hps.values[name] = all_values[name][index]
-                    bumped_value = True
-                    break
-            # Otherwise, reset to its first value.
-            hps.values[name] = default_values[name]
+        # Only the active entries take part: an inactive entry may share its
+        # name with an active one, whose value must be left alone.
+        for index in reversed(range(len(space))):
+            hp = space[index]
+            if not hps.is_active(hp):
+                continue
+            ordered_values = self._ordered_values(hp)
+            value = hps.values[hp.name]
+            if value == ordered_values[-1]:
+                # Reset to its first value and carry on to the entry before.
+                hps.values[hp.name] = hp.default
+                continue
+            # Bump up the hp value.
+            hps.values[hp.name] = ordered_values[
+                ordered_values.index(value) + 1
+            ]
+            # The entries after it, as far as they are active under the new
+            # value, start over from their first values.
+            for later_hp in space[index + 1 :]:
+                if hps.is_active(later_hp):
+                    hps.values[later_hp.name] = later_hp.default
+            hps.ensure_active_values()
+            return hps.values
+        return None
 
-        hps.ensure_active_values()
-        return hps.values if bumped_value else None
+    def _ordered_values(self, hp):
+        """The values of a hyperparameter in visiting order, default first."""
+        value_list = list(hp.values)
+        if hp.default in value_list:
+            value_list.remove(hp.default)
+        return [hp.default] + value_list
 
     def get_state(self):
         state = super().get_state()
